@@ -73,7 +73,8 @@ Lemma deliver_agree : forall cfg infl typ dc data rest,
     | (evs, false) => step_rel (GEnd evs) (complete (P_of cfg) (c_of cfg) (infl_of infl) typ dc data rest)
     end.
 Proof.
-  intros cfg infl typ dc data rest. unfold deliver, complete, infl_of.
+  intros cfg infl typ dc data rest. unfold deliver, complete, infl_of. rewrite gtrip_dtrip.
+  destruct (dtrip (c_of cfg) dc data); [exact norm_too_big|].
   destruct dc.
   - destruct (infl (data ++ flate_tail)) as [out|]; [|reflexivity].
     simpl s_dlimit.
@@ -117,14 +118,19 @@ Proof.
   destruct (int63 <=? g_len st + len); [reflexivity|].
   simpl s_limit.
   destruct ((0 <? rc_limit cfg) && (rc_limit cfg <? g_len st + len)); [reflexivity|].
-  unfold data_step. rewrite E2. unfold need.
-  destruct (take_n len bs3) as [[pl bs4]|]; [|reflexivity].
-  simpl g_final. unfold unmask at 1. simpl s_server.
+  unfold data_step. rewrite E2. rewrite !gtrip_dtrip. unfold unmask. simpl s_server.
+  destruct (take_n len bs3) as [[pl bs4]|].
+  2:{ match goal with |- step_rel (if ?b then _ else _) (if ?b' then _ else _) => change b' with b; destruct b end;
+      [exact norm_too_big|simpl; reflexivity]. }
+  simpl g_final.
   destruct fin'.
   - pose proof (deliver_agree cfg infl typ dc (acc ++ (if rc_server cfg then xor_mask key 0 pl else pl)) bs4) as HD.
     unfold unmask. simpl s_server.
     destruct (deliver cfg infl typ dc (acc ++ (if rc_server cfg then xor_mask key 0 pl else pl))) as [evs [|]]; exact HD.
-  - unfold unmask. simpl s_server. simpl. repeat split; auto.
+  - unfold unmask. simpl s_server.
+    match goal with |- step_rel (if ?b then _ else _) (if ?b' then _ else _) => change b' with b; destruct b end;
+      [exact norm_too_big|].
+    simpl. repeat split; auto.
 Qed.
 
 (* ---------------------------------------------------------------- one frame *)
